@@ -202,6 +202,7 @@ RULES = [
 
 LEVEL_TEXT = ("Static pairing / sweep / who-may-write rules on MIR: every removal from the peer map is followed by removal of that peer's "
               "routes on all paths; the refresh/expire/append loops over claims and cache have no exit other than exhaustion; announcements "
-              "always reach set_claims; only set_claims/remove_claims touch claim expiries.")
+              "always reach set_claims; only set_claims/remove_claims touch claim expiries."
+              " A stored claim is withdrawn iff it is not found in the announcement (membership, not time stamps); the table sweep is unconditional.")
 LEVEL_NOTE = "Decides C12.R1-R4 (necessary conditions). Not decided: equality of the stored claim set with the last announcement as a value."
 TECHNIQUE = "MIR pairing (must-follow) analysis, natural-loop exit classification, who-may-write"
